@@ -340,11 +340,17 @@ pub fn run(ctx: &mut Ctx) {
     let q = ctx.quick();
 
     // empty label list
-    ctx.run_cases("empty", 4, true, |ctx, rng, idx| {
+    ctx.run_cases("empty", 16, true, |ctx, rng, idx| {
         let mut engine = bundled.clone();
-        let cond = if idx % 2 == 1 { Cond::random(rng, 3, true) } else { Cond::default() };
+        let mut cond = if idx % 2 == 1 { Cond::random(rng, 3, true) } else { Cond::default() };
+        // every other pair with phoneme alignment on (the empty list then takes the aligned path)
+        cond.alignment = (idx / 2) % 2 == 1;
         cond.apply(&mut engine);
-        let lines = if idx >= 2 { Some(vec![String::new(), String::new()]) } else { None };
+        let lines = match idx / 4 {
+            0 | 2 => None,
+            1 => Some(vec![String::new(), String::new()]),
+            _ => Some(vec![]),
+        };
         check(ctx, &Case { engine: &engine, refv: Some(&env.bundled_ref), labels: vec![], lines, descr: "bundled".into(), cond, wellformed: true });
     });
 
